@@ -278,11 +278,14 @@ CLAIMED = {
         text="TLC checks that a code-shaped model of DatasetIndex (four nested indexes with key sets, pruning, catalog) refines the "
              "set-of-quads specification and that every transcribed read path equals its set expression; every transition of the "
              "specification is replayed (edge cover) on a real DatasetIndex and SparqlDatabase and seeded random histories are recorded; "
-             "every return value, snapshot, graph listing and sampled read call is validated by the TLA+ trace specification.",
+             "every return value, snapshot, graph listing and sampled read call is validated by the TLA+ trace specification. Apalache "
+             "shows that TypeOK /\\ CatalogCovers is an inductive invariant of the requirement module for identifiers of arbitrary value "
+             "(with a broken DROP as rejected control).",
         design_ref="DESIGN.md section 5 (C04)",
         note="Trusted: TLC, Json module, recording harness (harness/src/c04.rs). Exhaustive only for the small universe of the cfg; "
              "read calls per step are a seeded sample of all lookup shapes.",
-        technique="TLA+ refinement checking (TLC) + edge-cover replay + trace validation against the TLA+ requirement",
+        technique="TLA+ refinement checking (TLC) + inductive invariant of the requirement module (Apalache) + edge-cover replay + trace "
+                  "validation against the TLA+ requirement",
     ),
     "C09": dict(
         category="model_checking",
